@@ -146,11 +146,11 @@ Print Assumptions C20_zscore_mean0_var1.
 (* z-scores and percent change do not depend on the unit of the data: for EVERY factor c <> 0
    (np.std of c x is |c| s, here c > 0 read as c s), so no magnitude exists below which a
    non-constant series may be left un-normalised; covariances are bilinear in the two factors *)
-Theorem C20_zscore_scale_invariant : forall c x N s t, ~ c == 0 -> ~ s == 0 ->
-  cvar (fun t => cscale c (x t)) N == (c * s) * (c * s) - (c * c) * (s * s - cvar x N) /\
+Theorem C20_zscore_scale_invariant : forall c x N s t, ~ c == 0 -> ~ s == 0 -> s * s == cvar x N ->
+  (c * s) * (c * s) == cvar (fun t => cscale c (x t)) N /\
   zscore_fn (fun t => cscale c (x t)) N (c * s) t =c= zscore_fn x N s t.
 Proof.
-  intros c x N s t Hc Hs. split; [rewrite cvar_scale; ring|apply zscore_scale; assumption].
+  intros c x N s t Hc Hs Hv. split; [rewrite cvar_scale, <- Hv; ring|apply zscore_scale; assumption].
 Qed.
 Theorem C20_pct_scale_invariant : forall c x N t, ~ c == 0 -> ~ cnorm2 (cmean x N) == 0 ->
   pct_fn (fun t => cscale c (x t)) N t =c= pct_fn x N t.
